@@ -23,6 +23,7 @@ type gen struct {
 	nowMs     uint64 // generator's idea of the simulated clock
 	docs      []*model.Doc
 	smallDocs bool
+	nested    bool // some documents carry nested elements (several rows under one ID)
 }
 
 func newGen(seed uint64, stream string) *gen {
@@ -69,6 +70,15 @@ func (g *gen) doc(ts uint64) *model.Doc {
 	if g.r.Bool(0.3) {
 		d.Toks = append(d.Toks, model.Tok{F: "u", V: fmt.Sprintf("u%d", g.nextRID)})
 	}
+	if g.nested && g.r.Bool(0.4) {
+		for i, n := 0, g.r.Range(1, 3); i < n; i++ {
+			row := []model.Tok{{F: "n.a", V: vocab[g.r.Intn(len(vocab))]}}
+			if g.r.Bool(0.5) {
+				row = append(row, model.Tok{F: "n.b", V: fmt.Sprintf("e%d", g.r.Intn(6))})
+			}
+			d.Nested = append(d.Nested, row)
+		}
+	}
 	g.docs = append(g.docs, d)
 	return d
 }
@@ -108,6 +118,12 @@ func (g *gen) bulkSize() int {
 func (g *gen) query(depth int) *model.Q {
 	if depth <= 0 || g.r.Bool(0.45) {
 		f := fmt.Sprintf("k%d", g.r.Intn(4))
+		if g.nested && g.r.Bool(0.3) {
+			if g.r.Bool(0.5) {
+				return &model.Q{Op: "term", F: "n.a", V: vocab[g.r.Intn(len(vocab))]}
+			}
+			return &model.Q{Op: "term", F: "n.b", V: fmt.Sprintf("e%d", g.r.Intn(7))}
+		}
 		switch g.r.Intn(10) {
 		case 0:
 			return &model.Q{Op: "exists", F: []string{"svc", "num", "u", f}[g.r.Intn(4)]}
@@ -138,7 +154,9 @@ func (g *gen) query(depth int) *model.Q {
 
 func (g *gen) search(full bool) *Search {
 	s := &Search{Q: g.query(g.r.Intn(3)), From: 0, To: math.MaxInt64, Size: 100000, Desc: g.r.Bool(0.6)}
-	if g.r.Bool(0.4) {
+	if g.r.Bool(0.4) && !g.nested {
+		// (rows of one nested document use up the limit before adjacent repetitions are dropped:
+		// limited listings are only defined for documents without nested elements)
 		s.Size = g.r.Range(0, 12)
 	}
 	if g.r.Bool(0.4) && len(g.docs) > 0 {
@@ -248,6 +266,7 @@ func (g *gen) knobs() simenv.Knobs {
 	k.PStmt = []float64{0, 0, 0.002, 0.02}[r.Intn(4)]
 	k.StepCostNs = []int{0, 0, 1000, 100000}[r.Intn(4)]
 	k.AsyncParallelism = r.Range(1, 3)
+	k.AggLimits = r.Bool(0.5)
 	return k
 }
 
@@ -302,6 +321,42 @@ func GenCase(property string, seed uint64, tier Tier) *Case {
 	panic("no generator for " + property)
 }
 
+// genC01Recovery is the sub-profile "durability right after a recovery": a crash inside the write of
+// a large bulk (so that a long partial tail is left behind), restart, then a few very small bulks that
+// are acknowledged, then a power loss with nothing or little of the page cache surviving. Whatever
+// state the recovery left in the writers, an acknowledged bulk must already be durable.
+func genC01Recovery(g *gen, c *Case) *Case {
+	c.Profile = "c01-recovery"
+	c.Knobs.FracSize = 1 << 30
+	rounds := g.r.Range(1, 2)
+	for round := 1; round <= rounds; round++ {
+		var ops []Op
+		if g.r.Bool(0.5) {
+			ops = append(ops, g.bulk(g.r.Range(1, 3)))
+		}
+		ops = append(ops, g.bulk(g.r.Range(25, 60)))
+		f := &simos.Fault{Group: round, Op: "write", Action: "crash", ImageSeed: g.r.Uint64(), Nth: len(ops)}
+		f.PathSuffix = []string{".meta", ".meta", ".docs"}[g.r.Intn(3)]
+		if g.r.Bool(0.2) {
+			f.After = true
+		}
+		c.Faults = append(c.Faults, f)
+		c.Steps = append(c.Steps, Step{Kind: "arm", Group: round}, Step{Kind: "par", Clients: [][]Op{ops}}, Step{Kind: "disarm"},
+			Step{Kind: "start"}, Step{Kind: "validate", Label: fmt.Sprintf("recovered%d", round)})
+		var small []Op
+		for i, n := 0, g.r.Range(1, 4); i < n; i++ {
+			small = append(small, g.bulk(1))
+		}
+		c.Steps = append(c.Steps, Step{Kind: "par", Clients: [][]Op{small}})
+		mode := []string{"none", "none", "", "all"}[g.r.Intn(4)]
+		c.Steps = append(c.Steps, Step{Kind: "powerloss", ImageSeed: g.r.Uint64(), ImageMode: mode},
+			Step{Kind: "start"}, Step{Kind: "validate", Label: fmt.Sprintf("after-powerloss%d", round)})
+		g.nowMs += 2000
+	}
+	c.Battery = g.battery(3)
+	return c
+}
+
 // ---- C01 -----------------------------------------------------------------------------------------
 
 func genC01(seed uint64, tier Tier) *Case {
@@ -315,6 +370,9 @@ func genC01(seed uint64, tier Tier) *Case {
 		c.Knobs.FracSize = 1 << 30
 	}
 	c.Steps = append(c.Steps, Step{Kind: "start"})
+	if g.r.Bool(0.2) {
+		return genC01Recovery(g, c)
+	}
 	rounds := g.r.Range(1, 4)
 	for round := 1; round <= rounds; round++ {
 		nclients := g.r.Range(1, 3)
